@@ -20,10 +20,10 @@ TRUSTED = ["harness uigen in omit mode + xml.etree; the erasure of the faulted o
            "faults that are syntax errors (tree-sitter recovery) are outside this check (C07 covers totality)"]
 
 BINDING_FAULTS = ["unknown-property", "ill-typed", "unknown-signal", "unknown-attached-property", "unknown-attached-type", "duplicate", "duplicate-attached", "map-on-scalar",
-                  "ill-typed-attached", "ill-typed-pseudo"]
+                  "ill-typed-attached", "ill-typed-pseudo", "handler-body", "handler-parameter"]
 OBJECT_FAULTS = ["unknown-object-type", "invalid-object-type"]
 # faults of ONE binding that builds on its own: objcode.rs drops that binding and nothing else
-ALONE = {"unknown-property", "ill-typed", "unknown-signal", "unknown-attached-property", "unknown-attached-type", "map-on-scalar", "ill-typed-attached", "ill-typed-pseudo"}
+ALONE = {"unknown-property", "ill-typed", "unknown-signal", "unknown-attached-property", "unknown-attached-type", "map-on-scalar", "ill-typed-attached", "ill-typed-pseudo", "handler-body", "handler-parameter"}
 
 
 def blank_ids(rng, root):
@@ -112,6 +112,12 @@ def plant(rng, root):
         have = {b["name"] for b in o["props"]}
         free = [t for n, t in (("rows", 'rows: "x"'), ("columns", 'columns: "many"'), ("flow", 'flow: "down"'), ("flow", "flow: 1"), ("rows", "rows: 1.5")) if n not in have]
         o["faults"].append({"key": kind, "text": rng.choice(free) if free else "fooBar: 1"})
+    elif kind == "handler-body":
+        # the fault sits INSIDE a handler of a signal that exists (every object has objectNameChanged(QString)): reported in preview mode like anywhere else
+        o["faults"].append({"key": kind, "text": rng.choice(["onObjectNameChanged: srcS.fooBar()", "onObjectNameChanged: srcS.text = 1 + true", "onObjectNameChanged: { let x = nope; }",
+                                                             "onObjectNameChanged: srcS.text.length"])})
+    elif kind == "handler-parameter":
+        o["faults"].append({"key": kind, "text": rng.choice(["onObjectNameChanged: function(x: int) { srcS.clear() }", "onObjectNameChanged: function(x: QString, y: int) { srcS.clear() }"])})
     elif kind == "map-on-scalar":
         o["faults"].append({"key": kind, "text": "objectName { x: 1 }"})
     elif kind == "duplicate":
